@@ -63,8 +63,10 @@ def handle : Handler
       let n := bal.length
       let res := run kind R blocked s a b flag u x
       let modelCls := match res with | .ok _ => "ok" | .err => "err" | .panic => "panic"
-      if modelCls != result then mismatch "result" modelCls result
-      else
+      -- the property's predicates are evaluated on the implementation's own observation FIRST (a concrete
+      -- failing input is the stronger verdict); a differing result class is reported only when they pass
+      let clsCmp := if modelCls != result then mismatch "result" modelCls result else "ok"
+      let spInt := if bal.getD a 0 < locked.getD a 0 then 0 else bal.getD a 0 - locked.getD a 0
       match result with
       | "ok" =>
         match ints? bal', ints? frac', int? rem', int? supply' with
@@ -87,6 +89,13 @@ def handle : Handler
             let amt := u * C + x
             if kind == "send" || kind == "m2a" || kind == "a2m" then
               if (a == R || b == R) && amt > 0 then predfail "C03_reserve_party" "accepted"
+              -- "fails exactly when bank rules require it": an accepted transfer is covered by the sender's
+              -- SPENDABLE balance (vesting-locked ukava excluded).  A self transfer checks the ukava part and
+              -- the akava part separately against the undiminished balance (as x/bank does for a self send).
+              else if a != b && amt > spInt * C + frac.getD a 0 then
+                predfail "C03_fails_iff" "accepted-beyond-spendable"
+              else if a == b && (u > spInt || x > spInt * C + frac.getD a 0) then
+                predfail "C03_fails_iff" "accepted-beyond-spendable self"
               else if a == b then
                 if bal' == bal && frac' == frac && rem' == rem && supply' == supply then "ok"
                 else predfail "C03_send_self_noop" "state-changed"
@@ -108,19 +117,18 @@ def handle : Handler
               else if !frameOk R pre post [a] then predfail "C03_burn_exact" "frame"
               else "ok"
             else badInput "kind"
-          if pred != "ok" then pred else cmp
+          if pred != "ok" then pred else if clsCmp != "ok" then clsCmp else cmp
         | _, _, _, _ => badInput "post"
       | "err" =>
         -- the operation must fail exactly when bank rules require it
         if (kind == "send" || kind == "m2a" || kind == "a2m") && a != R && b != R
             && !(kind == "m2a" && blocked.getD b 0 == 1) then
-          let spInt := if bal.getD a 0 < locked.getD a 0 then 0 else bal.getD a 0 - locked.getD a 0
           if u * C + x ≤ spInt * C + frac.getD a 0 && u ≤ spInt then
             predfail "C03_fails_iff" "refused-with-sufficient-funds"
-          else "ok"
-        else "ok"
+          else clsCmp
+        else clsCmp
       | "panic" =>
-        if (kind == "mint" || kind == "burn") && (a == R || !flag) then "ok"
+        if (kind == "mint" || kind == "burn") && (a == R || !flag) then clsCmp
         else predfail "C03_no_panic" kind
       | _ => badInput "result"
     | _, _, _, _, _, _, _, _, _, _, _, _ => badInput "parse"
